@@ -3,7 +3,7 @@
      SETTINGS_INITIAL_WINDOW_SIZE delta, overflow tests), h2_recv_window_update (zero / overflow errors),
      h2_send_cqdata (clamp to min(stream, connection) window, small-send deferral, frame splitting),
      the stream loop of h2_process_streams (per-round budget, END_STREAM, retire), h2_recv_settings,
-     h2_recv_ping, and on the receive side h2_send_window_update_unit (credit returned for uploads).
+     h2_recv_ping, h2_recv_rst_stream (a cancelled stream is retired, nothing is sent), and on the receive side h2_send_window_update_unit (credit returned for uploads).
    Regime of the correspondence: every request is "GET /b<N>" with END_STREAM (response body = N bytes held
    in one memory chunk), the network drains the write queue after every round, at most [max_streams] streams.
    int32_t windows are Z with the code's own overflow tests written in. Constants from Gen/GenH2.v. *)
@@ -36,7 +36,8 @@ Inductive out :=
 | OSettingsAck | OGoaway (last : N) (code : N) | OPingAck.
 
 Inductive ev :=
-| EvSettings (ps : list (N * Z)) | EvSettingsAck | EvHeaders (s : N) (bodylen : Z) | EvWU (s : N) (inc : Z) | EvPing.
+| EvSettings (ps : list (N * Z)) | EvSettingsAck | EvHeaders (s : N) (bodylen : Z) | EvWU (s : N) (inc : Z) | EvPing
+| EvRst (s : N).        (* RST_STREAM from the client (any error code) *)
 
 Definition mk_h2 (c : h2) (cw i f : Z) (ss : list stream) (ci : N) (sp al : bool) : h2 :=
   {| cswin := cw; iws := i; fsize := f; streams := ss; cid := ci; settings_pending := sp; alive := al;
@@ -162,6 +163,11 @@ Fixpoint pump (fuel : nat) (c : h2) : h2 * list out :=
            match o with [] => (c1, []) | _ => let '(c2, o2) := pump f c1 in (c2, o ++ o2) end
   end.
 
+(* ---------------------------------------------------------------- h2_recv_rst_stream: the stream is closed and retired by the next pass of the stream loop;
+   nothing is sent.  (The rapid-reset guard - GOAWAY after 17 quick resets - is outside the model: histories stay below it.) *)
+Fixpoint remove_stream (s0 : N) (ss : list stream) : list stream :=
+  match ss with [] => [] | s :: t => if (sid s =? s0)%N then t else s :: remove_stream s0 t end.
+
 (* ---------------------------------------------------------------- one client frame *)
 Inductive res := Unsupported | Ok (c : h2) (o : list out).
 
@@ -186,6 +192,9 @@ Definition step (c : h2) (e : ev) : res :=
       let '(c1, o) := recv_wu c s v in
       if alive c1 then let '(c2, o2) := pump 64 c1 in Ok c2 (o ++ o2) else Ok c1 o
   | EvPing => let '(c2, o2) := pump 64 c in Ok c2 (OPingAck :: o2)
+  | EvRst s =>
+      if (s =? 0)%N || (cid c <? s)%N then let '(c1, o) := goaway c H2_E_PROTOCOL_ERROR in Ok c1 o      (* stream 0 / an idle stream *)
+      else let '(c2, o2) := pump 64 (with_streams c (remove_stream s (streams c))) in Ok c2 o2
   end.
 
 (* ---------------------------------------------------------------- receive side: credit returned for uploads
